@@ -285,6 +285,9 @@ def gamma3(tier, seed):
                 out.append({"id": f"g3/op/{op}/{width}/{tail}", "doc": doc_of(pat, fm, fm), "feature": f"op_{op[1:]}"})
             pat = [{"mov": ["c", {op: kids}]}, "d"]
             out.append({"id": f"g3/op/{op}/{width}/after", "doc": doc_of(pat, fm, fm), "feature": f"op_{op[1:]}"})
+    # an alternative that carries a repetition next to plain ones
+    out.append({"id": "g3/ins/or_mixed_repeated", "doc": doc_of(["a", {"$or": ["b", {"c": {"times": 2}}]}, "d"]), "feature": "ins_or_with_repeated_alternative"})
+    out.append({"id": "g3/ins/or_mixed_optional", "doc": doc_of(["a", {"$or": ["e", {"c": {"times": {"min": 0, "max": 2}}}]}, "d"]), "feature": "ins_or_with_repeated_alternative"})
     # alternatives whose names contain one another, under every full-match setting (no alternative is "unreachable")
     for mf, of in FLAGS:
         out.append({"id": f"g3/ins/or_contained_names/{ftag(mf,of)}", "doc": doc_of(["a", {"$or": ["b", "ab", "abc"]}, "d"], mf, of), "feature": "ins_or_contained_names"})
